@@ -592,7 +592,7 @@ Fixpoint repeat_list {A} (n : nat) (l : list A) : list A :=
 
 (* sequence * n; long results are not modelled (unary length) *)
 Definition c_repeat {A} (mk : list A -> cval) (n : Z) (s : list A) : cout :=
-  if (1000 <? n) then Undef else Val (mk (repeat_list (Z.to_nat n) s)).
+  if (1000 <? n) || (4000 <? n * Z.of_nat (List.length s)) then Undef else Val (mk (repeat_list (Z.to_nat n) s)).
 
 Definition c_bin (op : arith) (a b : cval) : cout :=
   match as_int a, as_int b with
